@@ -198,3 +198,33 @@ Definition decode (bs : list byte) : option N :=
 (* String::push / String::insert(idx, ch) *)
 Definition s_push (s : list byte) (cp : N) : list byte := s ++ encode cp.
 Definition s_insert (s : list byte) (i cp : N) : sout (list byte) := s_insert_str s i (encode cp).
+
+(* ---------- the characters of a text; String::pop and String::retain ---------- *)
+Fixpoint chars_of (fuel : nat) (bs : list byte) : list (list byte) :=
+  match fuel with
+  | O => []
+  | S f =>
+      match bs with
+      | [] => []
+      | _ => match char_len bs with
+             | Some n => firstn n bs :: chars_of f (skipn n bs)
+             | None => [bs]            (* not reached on valid text *)
+             end
+      end
+  end.
+Definition chars (bs : list byte) : list (list byte) := chars_of (length bs) bs.
+
+(* pop: the last character leaves, and is returned as a scalar value *)
+Definition s_pop (s : list byte) : list byte * option N :=
+  match rev (chars s) with
+  | [] => (s, None)
+  | ch :: before => (concat (rev before), decode ch)
+  end.
+
+(* retain(f): [keep] scripts the answers of f, one per character, in order *)
+Fixpoint keep_by {A} (l : list A) (keep : list bool) : list A :=
+  match l, keep with
+  | x :: r, k :: ks => if k then x :: keep_by r ks else keep_by r ks
+  | _, _ => []
+  end.
+Definition s_retain (s : list byte) (keep : list bool) : list byte := concat (keep_by (chars s) keep).
